@@ -83,13 +83,14 @@ func (c *Cache) addEntry(sname types.PrincipalName, a types.Authenticator) {
 	c.entries[a.CName.PrincipalNameString()] = ce
 }
 
-// ClearOldEntries clears entries from the Cache that are older than the duration provided.
+// ClearOldEntries clears entries from the Cache whose client time is older than the duration provided.
+// An entry has to be kept for as long as its client time would still pass the clock skew check, not for the duration since it was presented.
 func (c *Cache) ClearOldEntries(d time.Duration) {
 	c.mux.Lock()
 	defer c.mux.Unlock()
 	for ke, ce := range c.entries {
 		for k, e := range ce.replayMap {
-			if time.Now().UTC().Sub(e.presentedTime) > d {
+			if time.Now().UTC().Sub(e.cTime) > d {
 				delete(ce.replayMap, k)
 			}
 		}
